@@ -99,9 +99,7 @@ def run_genesis(ctx, prop, tier, seed, binp, workdir):
             payload = dict(special="reimport", signature=sig, history=r["history"], step=r["step"],
                            first_observed={k: v for k, v in r["obs"].items() if k not in ("state", "reimported")})
         rp = write_replay(ctx, sig.split(":")[0], seed, payload)
-        if not replay(json.load(open(rp)), binp, workdir, ctx):
-            raise ctx["Machinery"]("genesis counterexample %s did not reproduce (%s)" % (sig, rp))
-        violations.append(dict(signature=sig, replay=rp))
+        violations.append(dict(signature=sig, replay=rp, confirmed=bool(replay(json.load(open(rp)), binp, workdir, ctx))))
     nre = sum(1 for r in recs.values() if r["kind"] == "reimport")
     samples = [dict(kind="genesis", g=recs[1]["g"], observed={k: recs[1]["obs"][k] for k in ("validate", "init", "export")})]
     cov = dict(states=dist, transitions=gen, traces_validated_against_impl=len(recs), evaluations=len(recs),
@@ -286,7 +284,11 @@ def run(special, prop, tier, seed, binp, workdir, ctx):
         res = FLOWS[special](ctx, prop, tier, seed, binp, workdir)
         json.dump(res, open(cp + ".tmp%d" % os.getpid(), "w"))
         os.replace(cp + ".tmp%d" % os.getpid(), cp)
-    return dict(violations=[v for v in res["violations"] if v["signature"].startswith(prop + ":")], coverage=res["coverage"])
+    mine = [v for v in res["violations"] if v["signature"].startswith(prop + ":")]
+    unconfirmed = [v for v in mine if v.get("confirmed") is False]
+    if unconfirmed and len(unconfirmed) == len(mine):
+        raise ctx["Machinery"]("counterexample(s) %s did not reproduce" % ", ".join(v["signature"] for v in unconfirmed))
+    return dict(violations=[v for v in mine if v.get("confirmed") is not False], coverage=res["coverage"])
 
 
 def replay(rp, binp, workdir, ctx):
